@@ -33,7 +33,8 @@ meta = dict(id=sid, property=P, what=what, needs=needs,
                  'cd <worktree> && PYTHONPATH=<worktree> /venv/bin/python demo.py   (exit 0 clean, non-zero changed)'] +
                 ['PYTOUGH_REPO=<worktree> ./check %s --tier quick' % c for c in checks],
             our_checks=res,
-            caught=all(r['exit'] == 1 and r['violation_lines'] for r in res.values()) if res else None)
+            caught=any(r['exit'] == 1 and r['violation_lines'] for r in res.values()) if res else None,
+            caught_by=[c for c, r in res.items() if r['exit'] == 1 and r['violation_lines']])
 if os.environ.get('SEED_NOTE'): meta['history'] = os.environ['SEED_NOTE']
 json.dump(meta, open(os.path.join(d, 'meta.json'), 'w'), indent=1)
 print(sid, 'caught' if meta['caught'] else 'NOT CAUGHT', {c: r['exit'] for c, r in res.items()})
